@@ -200,6 +200,15 @@ def _run_case(case):
                 a = ev["a"]
                 if a == "parse":
                     specs[oi] = make_obj(o)
+                    if o.get("late_consts"):
+                        # between the declarations of this object and its parse(), another specification object declares constants
+                        # of the same names with other values, for itself (seed r10 C09-1: one constant table for all objects)
+                        import rtamt as _rt
+                        other = getattr(_rt, o.get("factory", "StlDiscreteTimeSpecification"))()
+                        for c_ in o["late_consts"]:
+                            other.declare_const(c_[0], "float", c_[1])
+                        _KEEP.append(other)
+                        del _KEEP[:-4]
                     specs[oi].parse()
                     # the AST clause needs the AST layout and node classes the codec knows; after a refactoring of
                     # those the clause is skipped (outputs are still compared), it must not raise an alarm
